@@ -1,5 +1,5 @@
 \* exhaustive, property version (fee first, victims without dependants), small universe, capacity 2
-SPECIFICATION MCSpec
+SPECIFICATION MCSpecRec
 CONSTANTS
   Atoms <- AtomsSmall
   Subs <- SubsSmall
@@ -12,7 +12,7 @@ CONSTANTS
   MaxBlockWeight = 250
   MineWeight = 120
   FeeFirst = TRUE
-  EvictMode = "nodeps"
+  EvictMode = "any"
   ShortReorg = FALSE
   MaxBlocks = 2
   MaxSteps = 4
@@ -20,4 +20,4 @@ CONSTANTS
   MaxReorgDepth = 0
   SimProfile = "mixed"
 VIEW View
-INVARIANTS PoolJointlyValid StemJointlyValid PoolMatureUnlocked NoUnderpaid NoOverweight AdmitMatureUnlocked MineableAccepted
+INVARIANTS EmitPoolJointlyValid
